@@ -89,10 +89,16 @@ func c04Writes() []c04Write {
 			c04Write{fs: filterSpec{del: true, delSel: id, delElements: true}, elFlag: true})
 	}
 	ws = append(ws, c04Write{fs: filterSpec{del: true, delElements: true}}, c04Write{fs: filterSpec{del: true, delElements: true}, elFlag: true})
+	// delete elements naming only a sub-element of the payload field (value.scale ...), alone, per item, and next to a partial part
+	ws = append(ws, c04Write{fs: filterSpec{del: true, delElements: true, delSub: true}})
+	for _, id := range ids {
+		ws = append(ws, c04Write{fs: filterSpec{del: true, delSel: id, delElements: true, delSub: true}})
+	}
 	// one write with a delete selector and a partial selector (the two may address different elements)
 	for _, ij := range [][2]int{{1, 2}, {2, 1}, {2, 3}, {3, 1}, {1, 1}} {
 		ws = append(ws, c04Write{items: []itemSpec{{pay: "2-"}}, fs: filterSpec{del: true, delSel: ij[0], partial: true, partialSel: ij[1]}},
-			c04Write{items: []itemSpec{{pay: "2-"}}, fs: filterSpec{del: true, delSel: ij[0], delElements: true, partial: true, partialSel: ij[1]}})
+			c04Write{items: []itemSpec{{pay: "2-"}}, fs: filterSpec{del: true, delSel: ij[0], delElements: true, partial: true, partialSel: ij[1]}},
+			c04Write{items: []itemSpec{{pay: "-2"}}, fs: filterSpec{del: true, delSel: ij[0], delElements: true, delSub: true, partial: true, partialSel: ij[1]}})
 	}
 	for _, l := range [][]itemSpec{{{id: 1, pay: "2-"}}, {{id: 2, pay: "2-"}}, {{id: 2, pay: "2-"}, {id: 3, pay: "2-", flag: 't'}}, nil} {
 		ws = append(ws, c04Write{items: l, fs: filterSpec{del: true, delSel: 1, partial: true}})
@@ -329,8 +335,8 @@ func c04Families(thorough bool) []*engine.IFamily {
 								}
 							case w.fs.del && w.fs.delElements && (w.fs.delSel == 0 || w.fs.delSel == id):
 								name := payName
-								if w.elFlag {
-									name = "" // the flag must not change: covered above
+								if w.elFlag || w.fs.delSub {
+									name = "" // the flag must not change: covered above; what a sub-element delete clears is left open
 								}
 								if w.fs.partial && (w.fs.partialSel == id || w.fs.partialSel == 0) && len(w.items) > 0 {
 									if _, rewritten := sp.recs(w.items[:1])[0][payName]; rewritten || written[id] != nil {
